@@ -109,6 +109,7 @@ type inlineEdit struct {
 func inlineRound(p *Prog, baseline map[string]bool) (map[string][]byte, []string, []string) {
 	out := map[string][]byte{}
 	var inlined, skipped []string
+	mergedInfoCache = map[[2]*packages.Package]*types.Info{}
 	for _, pk := range p.All {
 		bundle, bundled := explodeStructParams(p, pk, baseline)
 		inlined = append(inlined, bundled...)
@@ -223,6 +224,7 @@ type inlCtx struct {
 	counter        int
 	pendingClosure types.Object
 	exprInlined    map[*ast.CallExpr]bool // calls replaced by the callee's single returned expression
+	calleePk       *packages.Package      // set by calleeOf when the callee is declared in another package of the module
 	needImports    map[string]string      // shared per file: package name -> "path\tguard declaration" of imports an inlined body needs
 }
 
@@ -926,8 +928,9 @@ func (c *inlCtx) calleeOf(call *ast.CallExpr) (name string, ft *ast.FuncType, bo
 			}
 		}
 	}
+	c.calleePk = nil
 	fn, isFn := CalleeOf(info, call).(*types.Func)
-	if !isFn || fn.Pkg() == nil || fn.Pkg() != c.pk.Types {
+	if !isFn || fn.Pkg() == nil {
 		return
 	}
 	f := c.p.byObj[fn]
@@ -937,8 +940,18 @@ func (c *inlCtx) calleeOf(call *ast.CallExpr) (name string, ft *ast.FuncType, bo
 	if f.Decl == c.caller {
 		return // recursion
 	}
+	srcPk := c.pk
+	if fn.Pkg() != c.pk.Types {
+		// a new function of another package of the module (logic moved onto the type that owns the data): inlined when
+		// its body only uses what the calling package could write itself (checked by tryCall)
+		if f.Pkg == nil || f.Pkg.Types != fn.Pkg() {
+			return
+		}
+		srcPk = f.Pkg
+		c.calleePk = f.Pkg
+	}
 	var cf *ast.File
-	for _, sf := range c.pk.Syntax {
+	for _, sf := range srcPk.Syntax {
 		if sf.Pos() <= f.Decl.Pos() && f.Decl.Pos() < sf.End() {
 			cf = sf
 		}
@@ -966,6 +979,25 @@ func (c *inlCtx) tryCall(st ast.Stmt, call *ast.CallExpr, kind callKind, as *ast
 		return
 	}
 	info := c.pk.TypesInfo
+	calleePk := c.calleePk
+	crossQual := ""
+	if calleePk != nil {
+		info = mergedInfo(c.pk, calleePk)
+		// the name of the callee's package in this file
+		for _, is := range c.file.Imports {
+			if strings.Trim(is.Path.Value, `"`) == calleePk.PkgPath {
+				if is.Name != nil {
+					crossQual = is.Name.Name
+				} else {
+					crossQual = calleePk.Name
+				}
+			}
+		}
+		if crossQual == "" || crossQual == "_" || crossQual == "." {
+			c.skip(call, name, "callee of another package that this file does not import by name")
+			return
+		}
+	}
 	if sig.TypeParams() != nil || sig.RecvTypeParams() != nil {
 		c.skip(call, name, "generic")
 		return
@@ -1066,6 +1098,7 @@ func (c *inlCtx) tryCall(st ast.Stmt, call *ast.CallExpr, kind callKind, as *ast
 	wantImports := map[string]string{}
 	guards := map[string]string{}
 	qualified := map[*ast.Ident]bool{}
+	crossIds := map[*ast.Ident]bool{} // package-level names of the callee's package (another package): written qualified
 	ast.Inspect(body, func(n ast.Node) bool {
 		if sel, isSel := n.(*ast.SelectorExpr); isSel {
 			if x, isX := sel.X.(*ast.Ident); isX {
@@ -1101,6 +1134,24 @@ func (c *inlCtx) tryCall(st ast.Stmt, call *ast.CallExpr, kind callKind, as *ast
 				okNames, badName = false, id.Name
 			}
 		default:
+			if calleePk != nil && o.Pkg() == calleePk.Types {
+				// what belongs to the callee's package must be visible from here: package-level names are written
+				// qualified, fields and methods must be exported
+				if o.Parent() == calleePk.Types.Scope() {
+					if !o.Exported() {
+						okNames, badName = false, id.Name
+					} else {
+						crossIds[id] = true
+					}
+					return true
+				}
+				if v, isV := o.(*types.Var); isV && v.IsField() && !o.Exported() {
+					okNames, badName = false, id.Name
+				}
+				if fo, isF := o.(*types.Func); isF && fo.Type().(*types.Signature).Recv() != nil && !o.Exported() {
+					okNames, badName = false, id.Name
+				}
+			}
 			if o.Parent() == c.pk.Types.Scope() || o.Parent() == types.Universe {
 				_, at := callScope.LookupParent(id.Name, call.Pos())
 				if at != o {
@@ -1651,6 +1702,9 @@ func (c *inlCtx) tryCall(st ast.Stmt, call *ast.CallExpr, kind callKind, as *ast
 		}
 	}
 	for i, id := range origIds {
+		if crossIds[id] {
+			freshIds[i].Name = crossQual + "." + id.Name
+		}
 		if o := info.Uses[id]; o != nil {
 			if t, ok := substText[o]; ok {
 				freshIds[i].Name = t
@@ -2924,4 +2978,50 @@ func (c *inlCtx) devirtualize() {
 		}
 		return true
 	})
+}
+
+var mergedInfoCache = map[[2]*packages.Package]*types.Info{}
+
+// mergedInfo is a types.Info that answers for the syntax of both packages (the nodes are distinct, so the maps can
+// simply be united): used while a callee of another package is examined together with its call site.
+func mergedInfo(a, b *packages.Package) *types.Info {
+	key := [2]*packages.Package{a, b}
+	if m := mergedInfoCache[key]; m != nil {
+		return m
+	}
+	m := &types.Info{
+		Types:      map[ast.Expr]types.TypeAndValue{},
+		Instances:  map[*ast.Ident]types.Instance{},
+		Defs:       map[*ast.Ident]types.Object{},
+		Uses:       map[*ast.Ident]types.Object{},
+		Implicits:  map[ast.Node]types.Object{},
+		Selections: map[*ast.SelectorExpr]*types.Selection{},
+		Scopes:     map[ast.Node]*types.Scope{},
+	}
+	for _, pk := range []*packages.Package{a, b} {
+		ti := pk.TypesInfo
+		for k, v := range ti.Types {
+			m.Types[k] = v
+		}
+		for k, v := range ti.Instances {
+			m.Instances[k] = v
+		}
+		for k, v := range ti.Defs {
+			m.Defs[k] = v
+		}
+		for k, v := range ti.Uses {
+			m.Uses[k] = v
+		}
+		for k, v := range ti.Implicits {
+			m.Implicits[k] = v
+		}
+		for k, v := range ti.Selections {
+			m.Selections[k] = v
+		}
+		for k, v := range ti.Scopes {
+			m.Scopes[k] = v
+		}
+	}
+	mergedInfoCache[key] = m
+	return m
 }
